@@ -100,7 +100,7 @@ CLAIMED = {
                 "negative variance entries are flipped and the variance formula pairs matching indices; producer ([1,2]) and "
                 "consumers (first/second half at len//2) of the combined moment vector agree; midpoint fallbacks are taken only "
                 "after a < mid < b failed and the split asserts it. Sum == 1 with boundary, uniform agreement, equal-probability "
-                "split and affine covariance are numerical and NOT decided. Added during the build: closures kept beyond a loop iteration bind their loop-variant parameters at definition (D8); nodes, weights and model evaluations paired index by index are refreshed together on every path (D9); cached interval moments are keyed by the full interval and slot (D7).",
+                "split and affine covariance are numerical and NOT decided. Added during the build: closures kept beyond a loop iteration bind their loop-variant parameters at definition (D8); nodes, weights and model evaluations paired index by index are refreshed together on every path (D9); cached interval moments are keyed by the full interval and slot (D7). Round 2: no method of UncertaintyQuantification modifies a received sequence / call result or a view of it in place (D10, parameter-alias analysis; the variance is also accepted in whole-array form); distribution objects shared between dimensions are keyed by every loop-variant input of their construction (D11; found F-C15-1, repaired).",
         "technique": "dominance of a sanitiser loop + sign domain, polynomial identity, normalisation idiom, guarded-store checks, "
                      "constant/slice layout agreement across producer and consumers",
         "design_ref": "DESIGN.md section 3, C15",
@@ -170,7 +170,7 @@ CLAIMED = {
                 "right-hand-side builders scales each entry by 1/len(data) exactly once (whole-vector scaling vs. the reuse branch's "
                 "per-entry scaling); at every accumulation the sign factor is the class label of the very sample being evaluated; the "
                 "normalising division is guarded by a non-zero test and uses the clipped values. The Gram entries, definiteness and "
-                "the agreement of the hat evaluations are numerical and NOT decided; nothing is claimed for the mass-lumped forms. Added during the build: the three hat evaluations count the centre of a hat exactly once (D7, sa/hats.py); the matrix-entry cache of the reuse branch holds lambda-free entries (D2, shared with C17.D1); uniform Gram constants as polynomial identities (D6).",
+                "the agreement of the hat evaluations are numerical and NOT decided; nothing is claimed for the mass-lumped forms. Added during the build: the three hat evaluations count the centre of a hat exactly once (D7, sa/hats.py); the matrix-entry cache of the reuse branch holds lambda-free entries (D2, shared with C17.D1); uniform Gram constants as polynomial identities (D6). Round 2: cache hits receive lambda like misses (D2); the floor/ceil candidates of the per-sample right-hand-side path are de-duplicated so that a sample on a grid line names one hat (D7).",
         "technique": "paired-store check in triangular loops, guard analysis of lambda uses, exactly-once path argument on the CFG, "
                      "same-index (parallel array) checks, guarded-division check",
         "design_ref": "DESIGN.md section 3, C16",
@@ -181,7 +181,7 @@ CLAIMED = {
                 "same mirrored stores as a fresh value; (D2) an old right-hand-side entry is copied only for a point of the old grid "
                 "whose support domain matched in both ends and all dimensions, from the matched position; (D3) the hand-over empties the "
                 "old caches, refills them from all of the new ones under the same keys and restarts the new ones. Equality of results "
-                "with reuse on/off and small-grid vs large-grid equality are NOT decided. Added during the build: old support domains / old points come from the stored mesh of the same key as the copied right-hand side (D2); hat centre counted once in the implementations behind the small- and large-grid paths (D4); per-dimension caches are distinct objects (D5).",
+                "with reuse on/off and small-grid vs large-grid equality are NOT decided. Added during the build: old support domains / old points come from the stored mesh of the same key as the copied right-hand side (D2); hat centre counted once in the implementations behind the small- and large-grid paths (D4); per-dimension caches are distinct objects (D5). Round 2: cache hits regularised like misses (D1); the old point list is listed from the old mesh like the current one from the current mesh, per boundary branch (D2; found F-C17-2, repaired); stored index ranges of the data bins contain both ends when sliced (D6, constants read off with the polynomial domain; found F-C17-1, repaired); each hat listed once per sample (D4).",
         "technique": "dominance + value-term checks around the cache store/read, guard-set and index checks of the copy, hand-over "
                      "assignment ordering on the CFG",
         "design_ref": "DESIGN.md section 3, C17",
@@ -191,7 +191,7 @@ CLAIMED = {
                 "(violated today: recorded known finding), every scaling attribute written by the scaling methods is carried by "
                 "_update_internal and every DataSet constructed in a DataSet method flows through it, samples and labels are always "
                 "rebuilt with the same selector (delete / slice / predicate / shuffle / swap), and remove_samples rejects before it stores. "
-                "Necessary conditions on every path; the numerical clauses (min/max on range ends, revert restores samples) are NOT decided. Added during the build: scaling bookkeeping (D5, branch membership by evaluating the tests over (override, scaled)); split_labels makes one piece per label value present, each piece holding exactly its samples (D6).",
+                "Necessary conditions on every path; the numerical clauses (min/max on range ends, revert restores samples) are NOT decided. Added during the build: scaling bookkeeping (D5, branch membership by evaluating the tests over (override, scaled)); split_labels makes one piece per label value present, each piece holding exactly its samples (D6). Round 2: array ownership (D7): no in-place element store into the sample / label arrays of a DataSet that was not built from fresh arrays in the same function, and no in-place modification of attributes that _update_internal hands over by reference (found F-C18-2 and F-C18-3, both repaired); move_boundaries_to_front reorders both arrays with one permutation.",
         "technique": "field-sensitive guard dependence, attribute-set inclusion, must-pass-through on the CFG, selector value-term equality "
                      "for parallel arrays, dominance of raising guards over stores",
         "design_ref": "DESIGN.md section 3, C18",
@@ -201,7 +201,7 @@ CLAIMED = {
                 "package (effect analysis; this rule found the repaired test_data defect), learning-time scaling attributes are init-only "
                 "and re-applied by the same shift/scale/shift triple with consistent constants, _classificate takes the arg-max over all "
                 "classifiers on the class axis, evaluation summaries are computed from the same sequences and total, earlier calculated "
-                "classes are only extended, and only range-filtered data is classified. Correctness of densities / label = index is NOT decided. Added during the build: quantifier analysis of the out-of-range test (any / min below, any / max above, joined by or) in D6; unlabelled samples set aside (D7); memo tables of the density evaluation live no longer than the inputs of their values (D8).",
+                "classes are only extended, and only range-filtered data is classified. Correctness of densities / label = index is NOT decided. Added during the build: quantifier analysis of the out-of-range test (any / min below, any / max above, joined by or) in D6; unlabelled samples set aside (D7); memo tables of the density evaluation live no longer than the inputs of their values (D8). Round 2: learning-time scaling attributes are not stored again once _initialize used them (D2, None-guards correlated); calculated classes and stored testing data are extended by the same samples on the same paths (D5).",
         "technique": "method effect (purity) analysis + dropped-result scan, init-only ownership, sibling call-sequence agreement, value-term "
                      "pattern checks, def-use derivation from the out-of-range filter",
         "design_ref": "DESIGN.md section 3, C19",
